@@ -110,6 +110,11 @@ class Backend:
         if stratify:
             for text, g in GD.stratified(self.rng, self.opts):
                 self.add_text(text, g, origin="stratified")
+            if self.backend in ("python", "java") and getattr(self.opts, "inheritance", True):
+                # middle packets that add no named field (own PRNG stream)
+                frng = random.Random(self.seed * 7919 + 11)
+                for text in GD.framed(frng, java_safe=self.backend == "java"):
+                    self.add_text(text, origin="framed")
             if self.backend in ("python", "cxx"):
                 # groups and elements wider than 32 bits (own PRNG stream; the Java class leaves them out: KF-C19-int-chunk)
                 wrng = random.Random(self.seed * 4099 + 5)
